@@ -227,8 +227,6 @@ theorem mdStrp_pad (c : Str) (hs : strip c = c) (hne : c ≠ []) : mdStrp (mdCel
 
 theorem mdStrp_pad_nil : mdStrp (mdCellPad []) = none := by decide
 
-/-- cells as `_md_strp_cell` returns them -/
-def toOpt (c : Str) : Option Str := if c = [] then none else some c
 
 theorem mdStrp_pad_toOpt (c : Str) (hs : strip c = c) : mdStrp (mdCellPad c) = toOpt c := by
   unfold toOpt
